@@ -1327,6 +1327,22 @@ func c08LargeBinary(r *core.Run) bool {
 			return false
 		}
 	}
+	// trailing bytes after the complete value are reported, whatever the size of the input
+	for _, junk := range [][]byte{{0}, {0xff, 0xff, 0xff}, bytes.Repeat([]byte{'x'}, 100), bytes.Repeat([]byte{0}, 5000)} {
+		m := append(append([]byte(nil), e...), junk...)
+		_, err, ok := c.decode(m, c08Mode{}, "large-binary-trailing")
+		if !ok {
+			return false
+		}
+		r.Fault("trailing-bytes")
+		if err == nil {
+			r.Fail("trailing-bytes", "trailing-bytes-accepted", "Unmarshal accepted %d trailing bytes after a complete %d-byte %s (%s)", len(junk), n, ty.name, thriftProtoNames[pi])
+			if ty.name != "TBigBin" {
+				r.ScenarioOut = c.scenario(m, nil, "error")
+			}
+			return false
+		}
+	}
 	// the complete value, delivered in chunks, is the value
 	for i, tail := range []int{1 << 20, 4096, 65536, 65535, 9973} {
 		x, err, ok := c.decode(e, c08Mode{viaSim: true, byteReader: i%2 == 1, cut: -1, tail: tail}, "large-binary-chunked")
